@@ -1,4 +1,4 @@
 SPECIFICATION Spec
-INVARIANTS FixtureOK NonVacuous RecordOK
+INVARIANTS FixtureOK RecordOK
 POSTCONDITION TraceAccepted
 CHECK_DEADLOCK FALSE
